@@ -674,6 +674,20 @@ func (w *World) Probe() (ats []TokState, rts []TokState) {
 			exp = ar.GetRequestedAt().Add(time.Duration(w.Cfg.LAT) * Tick)
 		}
 		st.Exp = int(exp.Sub(w.T0) / Tick)
+		// a JWT access token says on its face what it carries: a scope or audience claim that was not granted is reported
+		// as part of the payload, whatever the stored session says
+		if pl := jwtPayload(t); pl != nil {
+			for _, x := range claimStrings(pl["aud"]) {
+				if !contains(st.Aud, x) {
+					st.Aud = append(st.Aud, "JWT-CLAIM-NOT-GRANTED:"+x)
+				}
+			}
+			for _, x := range append(claimStrings(pl["scp"]), strings.Fields(strings.Join(claimStrings(pl["scope"]), " "))...) {
+				if !contains(st.Scopes, x) {
+					st.Scopes = append(st.Scopes, "JWT-CLAIM-NOT-GRANTED:"+x)
+				}
+			}
+		}
 		ats = append(ats, st)
 	}
 	{ // with refresh-token introspection disabled every refresh token must come back inactive
@@ -694,6 +708,26 @@ func (w *World) Probe() (ats []TokState, rts []TokState) {
 		}
 	}
 	return
+}
+
+// claimStrings reads a claim that is a string or a list of strings.
+func claimStrings(v interface{}) []string {
+	switch x := v.(type) {
+	case string:
+		if x == "" {
+			return nil
+		}
+		return []string{x}
+	case []interface{}:
+		out := []string{}
+		for _, e := range x {
+			if s, ok := e.(string); ok {
+				out = append(out, s)
+			}
+		}
+		return out
+	}
+	return nil
 }
 
 var uuidRe = regexp.MustCompile(`^[0-9a-f]{8}-[0-9a-f]{4}-[0-9a-f]{4}-[0-9a-f]{4}-[0-9a-f]{12}$`)
